@@ -62,6 +62,13 @@ class Folder:
             if ch in self.attrs:
                 v = self.attrs[ch]
                 return self.fold(v) if isinstance(v, ast.AST) else v
+            if node.attr == "shape":
+                v = self.fold(node.value)
+                dims = []
+                while isinstance(v, list):
+                    dims.append(len(v))
+                    v = v[0] if v else None
+                return dims
             if node.attr in ("real", "imag"):
                 v = self.fold(node.value)
                 return _ew(lambda x: (x.real if node.attr == "real" else x.imag) if isinstance(x, complex) else (x if node.attr == "real" else 0.0), v)
@@ -72,12 +79,16 @@ class Folder:
                 return _ew(lambda x: -x, v)
             if isinstance(node.op, ast.UAdd):
                 return v
+            if isinstance(node.op, ast.Not) and not isinstance(v, list):
+                return not bool(v)
+            if isinstance(node.op, ast.Invert):
+                return _ew(lambda x: (not x) if isinstance(x, bool) else (1 - x if x in (0, 1) else ~x), v)
             raise Unfoldable("unary")
         if isinstance(node, ast.BinOp):
             a, b = self.fold(node.left), self.fold(node.right)
             ops = {
                 ast.Add: lambda x, y: x + y, ast.Sub: lambda x, y: x - y, ast.Mult: lambda x, y: x * y, ast.Div: lambda x, y: x / y, ast.Pow: lambda x, y: x**y,
-                ast.FloorDiv: lambda x, y: x // y, ast.Mod: lambda x, y: x % y, ast.BitXor: lambda x, y: x ^ y, ast.RShift: lambda x, y: x >> y, ast.LShift: lambda x, y: x << y,
+                ast.FloorDiv: lambda x, y: x // y, ast.Mod: lambda x, y: x % y, ast.BitXor: lambda x, y: x ^ y, ast.BitAnd: lambda x, y: x & y, ast.BitOr: lambda x, y: x | y, ast.RShift: lambda x, y: x >> y, ast.LShift: lambda x, y: x << y,
             }
             f = ops.get(type(node.op))
             if f is None:
@@ -86,11 +97,40 @@ class Folder:
                 return _ew(f, a, b)
             except (TypeError, ZeroDivisionError) as exc:
                 raise Unfoldable(str(exc))
+        if isinstance(node, ast.BoolOp):
+            vals = [self.fold(v) for v in node.values]
+            if any(isinstance(v, list) for v in vals):
+                raise Unfoldable("boolean operator on a list")
+            return all(bool(v) for v in vals) if isinstance(node.op, ast.And) else any(bool(v) for v in vals)
         if isinstance(node, ast.IfExp):
             d = self.decide(node.test) if self.decide else None
             if d is None:
                 raise Unfoldable(f"undecided condition {unparse(node.test)}")
             return self.fold(node.body if d else node.orelse)
+        if isinstance(node, ast.Subscript):
+            base = self.fold(node.value)
+            sl = node.slice
+            if isinstance(sl, ast.Tuple) and len(sl.elts) == 2 and isinstance(sl.elts[0], ast.Constant) and sl.elts[0].value is Ellipsis:
+                i = self.fold(sl.elts[1])
+
+                def last(v):
+                    if isinstance(v, list) and v and isinstance(v[0], list):
+                        return [last(r) for r in v]
+                    if isinstance(v, list) and isinstance(i, int) and -len(v) <= i < len(v):
+                        return v[i]
+                    raise Unfoldable("index")
+
+                return last(base)
+            if isinstance(sl, ast.Slice):
+                lo = self.fold(sl.lower) if sl.lower is not None else None
+                hi = self.fold(sl.upper) if sl.upper is not None else None
+                if isinstance(base, list) and sl.step is None and all(v is None or (isinstance(v, int) and not isinstance(v, bool)) for v in (lo, hi)):
+                    return base[lo:hi]
+                raise Unfoldable("slice")
+            i = self.fold(sl)
+            if isinstance(base, list) and isinstance(i, int) and not isinstance(i, bool) and -len(base) <= i < len(base):
+                return base[i]
+            raise Unfoldable("subscript")
         if isinstance(node, ast.Compare) and len(node.ops) == 1 and isinstance(node.ops[0], (ast.Lt, ast.Gt, ast.LtE, ast.GtE, ast.Eq, ast.NotEq)):
             a, b = self.fold(node.left), self.fold(node.comparators[0])
             f = {ast.Lt: lambda x, y: int(x < y), ast.Gt: lambda x, y: int(x > y), ast.LtE: lambda x, y: int(x <= y), ast.GtE: lambda x, y: int(x >= y), ast.Eq: lambda x, y: int(x == y), ast.NotEq: lambda x, y: int(x != y)}[type(node.ops[0])]
@@ -103,19 +143,40 @@ class Folder:
             m = node.func.attr
             if m in ("to", "float", "int", "long", "double", "type", "clone", "contiguous", "item", "detach"):
                 return self.fold(node.func.value)
-            if m in ("abs", "sum", "prod", "min", "max", "sign", "tanh", "sqrt", "exp", "argmin", "argmax", "amin", "amax"):
+            if m in ("abs", "sum", "prod", "min", "max", "sign", "tanh", "sqrt", "exp", "argmin", "argmax", "amin", "amax", "all", "any", "numel", "dim", "conj"):
                 fake = ast.Call(func=ast.Attribute(value=ast.Name(id="torch", ctx=ast.Load()), attr=m, ctx=ast.Load()), args=[node.func.value] + list(node.args), keywords=list(node.keywords))
                 return self.fold(fake)
             raise Unfoldable(f"method {m}")
         if isinstance(node, ast.Call):
             nm = call_name(node) or ""
             short = nm.split(".")[-1]
+            if short == "conj" and node.args:
+                return _ew(lambda x: x.conjugate() if isinstance(x, complex) else x, self.fold(node.args[0]))
             if short in ("tanh", "arctanh", "atanh", "sign", "log2", "log") and node.args:
                 fn = {"tanh": math.tanh, "arctanh": math.atanh, "atanh": math.atanh, "sign": lambda x: (x > 0) - (x < 0), "log2": lambda x: cmath.log(x) / math.log(2) if isinstance(x, complex) or x <= 0 else math.log2(x), "log": lambda x: cmath.log(x) if isinstance(x, complex) or x <= 0 else math.log(x)}[short]
                 try:
                     return _ew(fn, self.fold(node.args[0]))
                 except (ValueError, TypeError) as exc:
                     raise Unfoldable(str(exc))
+            if short in ("all", "any", "numel", "dim") and len(node.args) == 1 and not node.keywords:
+                v = self.fold(node.args[0])
+
+                def flat(z):
+                    return [y for x in z for y in flat(x)] if isinstance(z, list) else [z]
+
+                def depth(z):
+                    return 1 + (depth(z[0]) if z else 0) if isinstance(z, list) else 0
+
+                if short == "all":
+                    return all(bool(t) for t in flat(v))
+                if short == "any":
+                    return any(bool(t) for t in flat(v))
+                if short == "numel":
+                    return len(flat(v))
+                return depth(v)
+            if short == "fmod" and len(node.args) == 2:
+                a, b = self.fold(node.args[0]), self.fold(node.args[1])
+                return _ew(lambda x, y: math.fmod(x, y) if isinstance(x, float) or isinstance(y, float) else (x % y if x >= 0 else -((-x) % y)), a, b)
             if short in ("sum", "prod", "amin", "amax", "argmin", "argmax") and node.args:
                 v = self.fold(node.args[0])
                 if isinstance(v, list) and v and not any(isinstance(x, list) for x in v):
@@ -150,6 +211,8 @@ class Folder:
                 return _ew(f, self.fold(node.args[0]))
             if short == "complex" and len(node.args) == 2:
                 return _ew(lambda x, y: complex(x, y), self.fold(node.args[0]), self.fold(node.args[1]))
+            if short in ("zeros", "ones") and nm.startswith("torch."):
+                return 0 if short == "zeros" else 1  # a constant tensor of any shape, as a broadcasting scalar
             if short in ("zeros_like",) and node.args:
                 return _ew(lambda x: 0.0, self.fold(node.args[0]))
             if short in ("ones_like",) and node.args:
